@@ -117,7 +117,7 @@ void profile_blockedit(const json& plan, Ctx& ctx) {
 				if (std::find(types.begin(), types.end(), cur) != types.end()) { type = cur; ctx.probe("op_replace_same_type"); }
 			}
 			std::vector<std::pair<NiRef*, std::string>> refs;
-			setStage((op + ":synth").c_str());
+			setStage(("synth:" + op).c_str()); // a fault of the generating read is a rejected input
 			auto obj = synthBlock(hdr, type, ju64(st, "seed", 1), &refs);
 			setStage(op.c_str());
 			if (!obj) { stepNo++; continue; }
